@@ -28,6 +28,7 @@ RULE = ("One evaluation = one seeded execution: client A (dilation enabled) "
         "Non-trivial: close() hit a side whose Manager had left WAITING (a "
         "Connector existed) or the peer could not dilate. Distinct: "
         "event-log digests among non-trivial runs.")
+RULE += (' Peer-link cuts are told to both ends or to one end first (the other learns later).')
 LEVEL_TEXT = ("Seeded exploration. After faults stop, every close() that was "
               "called completes (closed notification) within 8000 events / "
               "600 simulated seconds; afterwards the closing side owns no "
